@@ -136,3 +136,16 @@ Proof. vm_compute. reflexivity. Qed.
 Lemma gen_kick_calls_Close :
   gen_kick_calls = ["old.Close"] /\ gen_conn_closing_methods = ["old.Close"].
 Proof. vm_compute. split; reflexivity. Qed.
+
+(** ** The registry is written by upgrade and by the connection's own unmap only
+
+    The functions that assign to or delete from the endpoints map are
+    [upgrade] and [unmap]; [unmap] is called in exactly one place, the
+    deferred clean-up of [ServeBackName] -- i.e. by the connection's own
+    thread after its [serve()] has returned, which is the [AUnmap] step of
+    the model.  No other path (the front path in particular: [Server.dial],
+    the proxy) changes what a name resolves to. *)
+Lemma gen_registry_writers_ok :
+  gen_registry_writers = ["Server.unmap"; "Server.upgrade"] /\
+  gen_unmap_callers = [("Server.ServeBackName", "deferred")].
+Proof. vm_compute. split; reflexivity. Qed.
